@@ -8,6 +8,8 @@ Line protocol of the C19 model (stateful: the hidden state `S` is threaded throu
   S.<call>                                `step` on the current state: result [+ argument buffers afterwards]
   P.<call>                                `pureOut`: the history-free function
   B.<call>                                `stepBuggy` (the code before the repairs) on the current state
+  U.<call>                                `stepUnsafe` (two hazards that are not in the code) on the current state
+  clock <year>                            the wall clock the interpreter showed when the package was imported
   inv                                     1 iff the invariant of Props/C19 holds on the current state
   inventory.count / inventory.item i      the generated hidden-state inventory
 calls   crc.shared k bits little | crc.new w poly init xor ri ro table bits little | crc.kept (same)
@@ -15,6 +17,9 @@ calls   crc.shared k bits little | crc.new w poly init xor ri ro table bits litt
         default.burst | default.csbk | default.dh | default.so | default.rcp
         gettoken req name attr=value…   (name / attr: s:<text> or n:<number>; value: number or none)
         tms more ack res ctl ty hex
+        crc9parts form bits sn mask crc32    (form: o = bytes / bytearray / memoryview, b / l = big / little-endian bitarray;
+                                              bits: the octets' bits resp. the 0/1 values; crc32: hex or none)
+        gpsdate dd mm yy
 -/
 
 namespace Dmr.Driver.Purity
@@ -63,6 +68,11 @@ def parseCall (op : String) (args : List String) : Option Call :=
     some (.getToken (← boolArg req) (← keyArg name) (← attrs.mapM attrArg))
   | "tms", [m, a, r, c, ty, h] => do
     some (.tmsAsBytes (← boolArg m) (← boolArg a) (← boolArg r) (← boolArg c) (← ty.toNat?) (← hexToBytes h))
+  | "crc9parts", [f, d, sn, m, c] => do
+    let form ← (if f == "o" then some BufForm.octets else if f == "b" then some (BufForm.bits false) else if f == "l" then some (BufForm.bits true) else none)
+    let crc ← (if c == "none" then some none else (hexToBytes c).map some)
+    some (.crc9Parts form (← bitsArg d) (← sn.toNat?) (← m.toNat?) crc)
+  | "gpsdate", [d, m, y] => do some (.gpsDate (← d.toNat?) (← m.toNat?) (← y.toNat?))
   | _, _ => none
 
 def attrOut : AttrRef → String
@@ -83,13 +93,20 @@ def outStr : Out → String
 
 /-- the argument buffers after the call (only buffers are shown) -/
 def argsStr : Call → String
-  | .crcShared _ d _ | .crcNew _ _ d _ | .crcKept _ _ d _ | .hamGenerate _ d | .hamCheck _ d | .hamCac _ d => "args:" ++ bitsOut d
+  | .crcShared _ d _ | .crcNew _ _ d _ | .crcKept _ _ d _ | .hamGenerate _ d | .hamCheck _ d | .hamCac _ d
+  | .crc9Parts _ d _ _ _ => "args:" ++ bitsOut d
   | .fiveBit d | .byteswap d | .tmsAsBytes _ _ _ _ _ d => "args:" ++ bytesToHex' d
   | _ => "args:"
 
 def stepLine (s : S) (op : String) (args : List String) : S × String :=
   if op == "reset" then (init, "ok")
   else if op == "inv" then (s, b01 (invB s))
+  else if op == "clock" then
+    match args with
+    | [y] => match y.toNat? with
+      | some n => ({ s with importClock := n }, "ok")
+      | none => (s, "ERR bad-args")
+    | _ => (s, "ERR bad-args")
   else if op == "inventory.count" then (s, toString Gen.hiddenState.length)
   else if op == "inventory.item" then
     match args with
@@ -107,6 +124,9 @@ def stepLine (s : S) (op : String) (args : List String) : S × String :=
         (r.1, outStr r.2.1 ++ " " ++ argsStr r.2.2)
       else if mode == "B." then
         let r := stepBuggy s c
+        (r.1, outStr r.2.1 ++ " " ++ argsStr r.2.2)
+      else if mode == "U." then
+        let r := stepUnsafe s c
         (r.1, outStr r.2.1 ++ " " ++ argsStr r.2.2)
       else if mode == "P." then (s, outStr (pureOut c) ++ " " ++ argsStr (argsAfter c))
       else (s, "ERR bad-op " ++ op)
